@@ -149,10 +149,11 @@ def install_yields():
 
     store = {}
 
-    def recursion_cache(checker_cls):
-        if checker_cls not in store:
-            store[checker_cls] = YDict()
-        return store[checker_cls]
+    def recursion_cache(checker_cls, *default_conversion):      # (checker, default conversion) since fix 709dee9
+        key = (checker_cls,) + default_conversion
+        if key not in store:
+            store[key] = YDict()
+        return store[key]
     rec.recursion_cache = recursion_cache
     orig_reset = apischema.cache.reset
 
